@@ -6,6 +6,7 @@ import keyword
 import re
 from typing import Any
 
+from ..astutil import norm
 from ..core import PKG, Report
 from ..skeleton import Event, Scope, SkelWalker, scan
 
@@ -119,13 +120,15 @@ def run(rep: Report, ctx: Any) -> str:
     # reserved parameter names of operations, read from the AST
     ep = ix.cls("Endpoint").methods.get("_check_parameters_for_conflicts")
     rep.require(ep, "Endpoint._check_parameters_for_conflicts")
+    # the reserved table (any spelling): a local bound to a literal list of strings that a python_name is tested against
+    from .registries import reserved_lists
+
+    tables = reserved_lists(ep)
+    tested = {norm(c.comparators[0]) for c in ast.walk(ep.node) if isinstance(c, ast.Compare) and isinstance(c.ops[0], ast.In)
+              and norm(c.left).endswith(".python_name")}
     endpoint_reserved: set[str] = set()
-    for n in ast.walk(ep.node):
-        if isinstance(n, ast.Assign) and any(isinstance(t, ast.Name) and t.id == "reserved_names" for t in n.targets):
-            try:
-                endpoint_reserved = set(ast.literal_eval(n.value))
-            except Exception:  # noqa: BLE001
-                pass
+    for nm in sorted(set(tables) & tested):
+        endpoint_reserved |= set(tables[nm])
     rep.require(endpoint_reserved, "reserved_names list in _check_parameters_for_conflicts")
     rep.indexed["reserved_words"] = len(reserved)
     rep.indexed["endpoint_reserved"] = sorted(endpoint_reserved)
